@@ -374,7 +374,7 @@ Proof.
   intros Ht Hsp Hlen Eti Es Hspk Hx Hidx Hannex Hone Hitems Hsg Hstd Hv.
   destruct (verify_input_p2tr_keypath_sound hash256 sha256 hash_tapsighash hash_tapleaf xonly_ok pr C
               ripemd160 sha1 hash160 t sp idx m ti s x sg Eti Es Hspk Hx Hitems Hv)
-    as (_ & _ & d & Hd & Hver).
+    as (_ & _ & _ & d & Hd & Hver).
   destruct (schnorr_split_bip341 sg s64 ht Hsg) as [Hsplit _]. rewrite Hsplit in Hd, Hver.
   cbn [fst snd] in Hd, Hver.
   rewrite (fresh_digest_bip341 t sp idx ht ct coins _ None
